@@ -1,7 +1,9 @@
 package props
 
 import (
+	"bytes"
 	"fmt"
+	"github.com/google/go-tdx-guest/verify/trust"
 	"net/http"
 	"testing"
 	"time"
@@ -546,6 +548,112 @@ func TestC06(t *testing.T) {
 	// a signed QE Identity that states no end date at all (member absent), next to an unsigned twin member - or after a
 	// refused response - that states a comfortable one: a document without an end is not in date
 	gen.Prop(t, "signed-document-without-an-end-date", gen.N(300, 20000), func(t *rapid.T) { c07OmittedMember(t, "nextUpdate") })
+	// the issuing-CA certificate IN THE QUOTE has expired; the relying party's bundle lists the root and a renewed
+	// certificate of that CA (same name and key), so a valid path exists - through a certificate the quote does not carry
+	gen.Direct(t, "expired-issuing-ca-in-the-quote-renewed-one-in-the-bundle", func(t *testing.T) {
+		var f *gen.Fault
+		for i := range gen.Faults {
+			if gen.Faults[i].Name == "quote-carries-an-expired-edition-of-the-issuing-ca-and-the-trusted-bundle-lists-the-renewed-one" {
+				f = &gen.Faults[i]
+			}
+		}
+		if f == nil {
+			gen.HarnessError(t, "fault not in the catalogue")
+		}
+		for i, seed := range gen.PKISeeds {
+			if !gen.ShardOwns(i) {
+				continue
+			}
+			w := gen.NewWorld(gen.NewPKI(gen.PKISpec{Seed: seed}), gen.NewStream(gen.Seed()+uint64(i), "c06renewed"))
+			w.Build()
+			f.Post(w)
+			for _, l := range levels {
+				for _, bundle := range []string{"root+renewed-ca", "renewed-ca+root", "root-only"} {
+					pool := gen.PoolOf(w.PKI.Root, w.PKI.Int)
+					switch bundle {
+					case "renewed-ca+root":
+						pool = gen.PoolOf(w.PKI.Int, w.PKI.Root)
+					case "root-only":
+						pool = gen.PoolOf(w.PKI.Root)
+					}
+					o := w.Options(l, w.NewGetter(), pool)
+					gen.Eval()
+					v := gen.Call(func() error { return verify.RawTdxQuote(w.Raw, o) })
+					if v.Accepted() {
+						gen.Fail(t, gen.Violation{Key: "accepts-expired:intermediate-in-the-quote:" + bundle, Oracle: "accepted => no certificate of the PCK chain has expired at the PckCertChain time", Detail: fmt.Sprintf("pki=%s level=%s bundle=%s: the quote's issuing-CA certificate expired an hour before the verification time (a renewed one is in the bundle): accepted", seed, l, bundle), Replay: map[string]any{"kind": "c06-renewed-ca", "pki": seed, "level": int(l), "bundle": bundle}})
+						return
+					}
+					gen.NonTrivial("c06renewed", seed, int(l), bundle)
+				}
+			}
+		}
+		gen.Class("expired-issuing-ca-renewed-in-bundle")
+	})
+	// no time set given and ONE options value serving a history of calls on the real clock: calls that fail early (bytes
+	// that are no quote, a chain that does not parse, a collateral download that fails), a quote whose leaf is still
+	// valid, the leaf's end of validity passes, early failures again, the quote again: it is judged at the time of THAT call
+	gen.Direct(t, "default-time-set-across-a-history-of-calls", func(t *testing.T) {
+		if sh, _ := gen.Shard(); sh != 0 {
+			return
+		}
+		now := time.Now()
+		expiry := now.Truncate(time.Second).Add(4 * time.Second)
+		c := c06Fresh([5]time.Time{now, now, now, now, now}, false)
+		for n := range c.win {
+			c.win[n] = gen.Window{NotBefore: now.AddDate(-2, 0, 0), NotAfter: now.AddDate(3, 0, 0)}
+		}
+		c.win["leaf"] = gen.Window{NotBefore: now.AddDate(-2, 0, 0), NotAfter: expiry}
+		w, poolRoot := c.build(gen.NewStream(uint64(now.Unix()), "c06hist"), "now-history")
+		damaged := append([]byte{}, w.Raw...)
+		if i := bytes.Index(damaged, []byte("-----BEGIN CERTIFICATE-----")); i >= 0 {
+			copy(damaged[i:], "-----BEGIN CERTIFICATE+++++")
+		}
+		type ov struct {
+			name string
+			o    *verify.Options
+			g    trust.HTTPSGetter
+		}
+		var opts []ov
+		for _, l := range levels {
+			g := w.NewGetter()
+			o := w.Options(l, g, gen.PoolOf(poolRoot))
+			o.Now = nil
+			opts = append(opts, ov{l.String(), o, g})
+		}
+		early := func(o ov) {
+			_ = gen.Call(func() error { return verify.RawTdxQuote([]byte("not a quote"), o.o) })
+			_ = gen.Call(func() error { return verify.RawTdxQuote(damaged, o.o) })
+			_ = gen.Call(func() error { return verify.RawTdxQuote(w.Raw[:600], o.o) })
+			o.o.Getter = gen.FailGetter{}
+			_ = gen.Call(func() error { return verify.RawTdxQuote(w.Raw, o.o) }) // (fails when collateral is asked for)
+			o.o.Getter = o.g
+		}
+		for _, o := range opts {
+			early(o)
+			gen.Eval()
+			v := gen.Call(func() error { return verify.RawTdxQuote(w.Raw, o.o) })
+			if time.Now().After(expiry.Add(-300 * time.Millisecond)) {
+				gen.Inconclusive("default time set across a history: the machine was too slow to verify before the leaf expired")
+				return
+			}
+			if !v.Accepted() {
+				gen.Inconclusive("default time set across a history: in-date quote rejected before expiry (" + o.name + "): " + v.String())
+				return
+			}
+		}
+		time.Sleep(time.Until(expiry.Add(1500 * time.Millisecond)))
+		for _, o := range opts {
+			early(o)
+			gen.Eval()
+			v := gen.Call(func() error { return verify.RawTdxQuote(w.Raw, o.o) })
+			if v.Accepted() {
+				gen.Fail(t, gen.Violation{Key: "default-time-set:history:expired-leaf-accepted", Oracle: "with no time set given, artifacts are judged at the current time - of the call being made", Detail: fmt.Sprintf("level=%s: one options value; calls that fail early, the quote accepted while its leaf was valid, 1.5 s after the leaf's end of validity calls that fail early and then the quote again: accepted", o.name), Replay: map[string]any{"kind": "c06-now-history"}})
+				return
+			}
+			gen.NonTrivial("default-time-set-history", o.name)
+		}
+		gen.Class("default-time-set-across-a-history")
+	})
 	gen.Direct(t, "default-time-set", func(t *testing.T) {
 		now := time.Now()
 		for _, expired := range []bool{false, true} {
